@@ -244,10 +244,18 @@ func fuzzBatch(seed int64, n int, adversarial bool) *fuzzReport {
 				E map[string]int
 				F [2]int `xsel:"1"`
 			}
+			// fields and elements of DEFINED scalar types (time.Duration, a named string): filled or refused with an error
+			type label string
+			type D struct {
+				W time.Duration  `xsel:"count(//*)"`
+				L label          `xsel:"name(/*)"`
+				P *time.Duration `xsel:"1"`
+				S []label        `xsel:"//*"`
+			}
 			var nilT *T
 			var pp **T
 			var iface any = &T{}
-			targets := []any{nil, 3, "s", T{}, &T{}, nilT, pp, &pp, &iface, []int{}, &[]int{}, &[][]int{}, &[]*T{}, map[string]int{}, &map[string]int{}, make(chan int), func() {}, &struct{}{}, new(int), &[]chan int{}, &[]T{}, &[3]int{}}
+			targets := []any{&D{}, &[]D{}, &[]label{}, &[]time.Duration{}, nil, 3, "s", T{}, &T{}, nilT, pp, &pp, &iface, []int{}, &[]int{}, &[][]int{}, &[]*T{}, map[string]int{}, &map[string]int{}, make(chan int), func() {}, &struct{}{}, new(int), &[]chan int{}, &[]T{}, &[3]int{}}
 			t := targets[rng.Intn(len(targets))]
 			desc := fmt.Sprintf("Unmarshal(%T into %T)", res, t)
 			count(desc)
@@ -287,6 +295,12 @@ func fuzzBatch(seed int64, n int, adversarial bool) *fuzzReport {
 	for _, t := range []string{"translate('Zürich', 'abcdefghijklmnopqrstuvwxyz', 'ABCDEFGHIJKLMNOPQRSTUVWXYZ')", "translate('中文😀', 'a', 'b')", "contains('café', 'é')",
 		"substring('12345', 3, -1)", "substring('añb', 2, -5)", "substring('😀x', 2, 0 div 0)", "substring-before('é', '')", "normalize-space(' é ')",
 		"starts-with('😀', '')", "string-length(translate('é́', 'e', ''))", "substring('12345', 1.5, -0.5)", "substring('', 1, 1 div 0)"} {
+		tryExpr(t, true)
+	}
+	// positions no list can have, comparisons of node-sets without a single number, predicates after a literal position
+	for _, t := range []string{"//*[10000000000000000000]", "(//*)[18446744073709551616]", "//*[1e19]", "//node()[9223372036854775808][1]", "ancestor::*[99999999999999999999999999]",
+		"//*[1][10000000000000000000]", "//*[0.5]", "//*[-1]", "//* > //text()", "//comment() >= //processing-instruction()", "//@* < //namespace::*", "//*[. > ..]",
+		"//text()[. <= //comment()]", "starts-with('x', 'x')", "starts-with(name(/*), name(/*))", "contains('', '')", "substring-after('a', 'a')", "//*[1][@*][1]"} {
 		tryExpr(t, true)
 	}
 	// strings that are almost numerals: conversions are total and never fail internally
